@@ -23,8 +23,9 @@ for s in seeds:
         continue
     prop = s.split("-")[0]
     hits = []
-    for c in claimed:
-        r = subprocess.run([os.path.join(VERIF, "bin/ionvc"), "check", "-prop", c, "-repo", wt, "-verif", VERIF, "-no-evidence"], env=ENV, cwd=VERIF, capture_output=True, text=True)
+    todo = [prop] if (prop in claimed and os.environ.get("SEED_ALL") is None) else claimed
+    for c in todo:
+        r = subprocess.run(["nice", "-n", "10", os.path.join(VERIF, "bin/ionvc"), "check", "-prop", c, "-repo", wt, "-verif", VERIF, "-no-evidence"], env=ENV, cwd=VERIF, capture_output=True, text=True)
         v = [l for l in r.stdout.splitlines() if l.startswith("VIOLATION")]
         if v:
             hits.append("%s(%d)" % (c, len(v)))
